@@ -314,6 +314,8 @@ def run(ctx):
     ns = len(ctx.suite_names)
     rep.floor('R12.2', 'assert obligations evaluated', tot_assert, 100 * ns)
     rep.floor('R12.2', 'slice / copy obligations evaluated', tot_slice, 60 * ns)
+    from rules import profile
+    profile.check(ctx, rep, 'R12.P', list(API) + [tp + '::deserialize' for tp in DECODERS.values()])
     return rep
 
 
